@@ -405,8 +405,8 @@ func walkAggregation(expr string, n *promParser.AggregateExpr) (src []Source) {
 			s.Aggregation = n
 			s.Operation = "count_values"
 			// Param is the label to store the count value in.
-			s = includeLabel(s, n.Param.(*promParser.StringLiteral).Val)
-			s = guaranteeLabel(s, n.Param.(*promParser.StringLiteral).Val)
+			s = includeLabel(s, stringValue(n.Param))
+			s = guaranteeLabel(s, stringValue(n.Param))
 			s = excludeMetricName(s, n)
 			src = append(src, s)
 		}
@@ -493,6 +493,21 @@ func parseAggregation(expr string, n *promParser.AggregateExpr) (src []Source) {
 	return src
 }
 
+// stringValue returns the value of a string argument, which can be wrapped in parentheses: ("foo").
+func stringValue(expr promParser.Expr) string {
+	for {
+		p, ok := expr.(*promParser.ParenExpr)
+		if !ok {
+			break
+		}
+		expr = p.Expr
+	}
+	if s, ok := expr.(*promParser.StringLiteral); ok {
+		return s.Val
+	}
+	return ""
+}
+
 func parsePromQLFunc(s Source, expr string, n *promParser.Call) Source {
 	switch n.Func.Name {
 	case "abs", "sgn", "acos", "acosh", "asin", "asinh", "atan", "atanh", "cos", "cosh", "sin", "sinh", "tan", "tanh":
@@ -572,7 +587,7 @@ If you're hoping to get instance specific labels this way and alert when some ta
 	case "label_replace", "label_join":
 		// One label added to the results.
 		s.Returns = promParser.ValueTypeVector
-		s = guaranteeLabel(s, n.Args[1].(*promParser.StringLiteral).Val)
+		s = guaranteeLabel(s, stringValue(n.Args[1]))
 
 	case "pi":
 		s.Returns = promParser.ValueTypeScalar
